@@ -811,7 +811,61 @@ def w9_replace_drops_old(prog):
             continue
         fs = [f for f in prog.impl_methods(imp) if f.name == 'set_component']
         if not fs:
-            r.viol('W9', 'set_component/missing', '-', 'set_component of the containing cell not found')
+            # the walk may only *locate* the slot (return a pointer/reference to element `index` of column 0) and leave
+            # the replacement to its caller
+            for loc_f in prog.impl_methods(imp):
+                out = loc_f.d.get('output') or {}
+                if out.get('k') not in ('ptr', 'ref') or loc_f.body.argc < 3:
+                    continue
+                El = pathsem.analyse(prog, loc_f)
+                lrets = [p for p in El.paths if p.ended == 'return']
+                cands = {i: ('p', i, loc_f.body.local_name(i) or '') for i in range(1, loc_f.body.argc + 1)}
+                colp = [t for i, t in cands.items() if ty_str(loc_f.body.local_ty(i)).lstrip('&').replace('mut ', '').startswith('[')]
+                ok_loc = bool(lrets) and not El.truncated and len(colp) == 1
+                for p in lrets if ok_loc else []:
+                    v = p.ret
+                    el = [t for t in pathsem.subterms(v) if isinstance(t, tuple) and t[0] == 'call' and t[1].rsplit('::', 1)[-1] in ('get_unchecked_mut', 'get_unchecked', 'index_mut', 'add', 'offset') and len(t[2]) == 2
+                          and pathsem.mentions(t[2][0], lambda u: u == colp[0])]
+                    frp = [t for t in pathsem.subterms(v) if isinstance(t, tuple) and t[0] == 'call' and t[1].rsplit('::', 1)[-1] in ('from_raw_parts_mut', 'from_raw_parts')]
+                    usz = [t for i, t in cands.items() if ty_str(loc_f.body.local_ty(i)) == 'usize']
+                    col0 = pathsem.mentions(v, lambda u: isinstance(u, tuple) and u[0] == 'call' and u[1].rsplit('::', 1)[-1] in ('get_unchecked', 'get_unchecked_mut', 'index', 'first') and S(u[2][0]) == colp[0] and (len(u[2]) == 1 or S(u[2][1]) == ('c', 0)))
+                    # element index and slice length are two different usize parameters of the step
+                    ixs = {S(t[2][1]) for t in el} & set(usz)
+                    lns = {S(t[2][1]) for t in frp if len(t[2]) > 1} & set(usz)
+                    if not (col0 and len(ixs) == 1 and (not frp or (len(lns) == 1 and lns != ixs))):
+                        ok_loc = False
+                if not ok_loc:
+                    continue
+                n += 1
+                r.inst('%s for (C, R) [Contained] locates the slot' % loc_f.name)
+                tpath = imp['trait']['path'] + '::' + loc_f.name
+                callers = [g for g in prog.fns.values() if g.kind != 'Closure' and not (g.impl and g.impl.get('trait') and g.impl['trait']['path'] == imp['trait']['path'])
+                           and any(True for _ in g.body.calls(lambda c: c['path'] == tpath))]
+                if not callers:
+                    r.viol('W9', 'set_component/missing', '-', 'the slot located by %s is never written' % loc_f.name)
+                for g in callers:
+                    Eg = pathsem.analyse(prog, g)
+                    gp = {('p', i, g.body.local_name(i) or '') for i in range(1, g.body.argc + 1)}
+                    bad = None
+                    for p in Eg.paths:
+                        if p.ended != 'return':
+                            continue
+                        for e in p.calls(lambda e: e['path'] == tpath):
+                            slot = e['ret']
+                            raw = p.calls(lambda q: q['name'] in ('write', 'write_unaligned', 'write_volatile', 'copy_nonoverlapping', 'copy') and q['path'].startswith('core::') and any(S(a_) == slot for a_ in q['args']))
+                            if raw:
+                                bad = bad or 'the located slot is overwritten with a raw %s: the replaced value is never dropped' % raw[0]['name']
+                                continue
+                            sts = [q for q in p.events if q['k'] == 'store' and S(q['loc']) in (('d', slot), slot) and S(q['value']) in gp]
+                            if len(sts) != 1:
+                                bad = bad or 'the component must be stored into the located slot exactly once (found %d stores)' % len(sts)
+                                continue
+                            if not [q for q in p.events if q['k'] == 'drop' and q['i'] < sts[0]['i'] and q.get('loc') is not None and S(q['loc']) == S(sts[0]['loc'])]:
+                                bad = bad or 'the stored component is overwritten without being dropped first'
+                    if bad or Eg.truncated:
+                        r.viol('W9', 'set_component/overwrite-without-drop' if bad and 'drop' in bad else 'set_component/store-count', g.loc(), bad or 'not analysable')
+            if not n:
+                r.viol('W9', 'set_component/missing', '-', 'set_component of the containing cell not found')
             continue
         f = fs[0]
         n += 1
